@@ -253,6 +253,8 @@ START_SPECS = [
     ("", ["b", "aa"], "ab"),
     ("", ["ab", "ba"], "ab"),      # swap-invariant
     ("", ["aab", "bba"], "ab"),    # swap-invariant
+    ("aa", ["aa"], "ab"),          # EMPTY start class
+    ("ba", ["aab", "ab", "ba"], "ab"),   # EMPTY start class
 ]
 
 
